@@ -19,6 +19,9 @@ Proof. auto. Qed.
 Lemma wpT_mono m (Q R : st -> Prop) : (forall s, Q s -> R s) -> wpT m Q -> wpT m R.
 Proof. unfold wpT. destruct m as [[s e]|]; auto. Qed.
 
+Lemma bind_some_inv' s0 e0 f s' ev : bind (Some (s0, e0)) f = Some (s', ev) -> exists rest, f s0 = Some (s', rest) /\ ev = e0 ++ rest.
+Proof. unfold bind. destruct (f s0) as [[s2 e2]|]; [|discriminate]. intros [= <- <-]. eauto. Qed.
+
 (* ------------------------------------------------------------------ counting functors / timers *)
 Definition nretry (s : st) : nat := length (filter is_retry_timer (timers s)).
 Definition nstart (q : list functor) : nat := length (filter is_FStart q).
@@ -241,7 +244,9 @@ Record Cc (ex : option nat) (al : bool) (cn : option nat) (cs : list cobj) (q : 
   c_ffc : forall c, In (FForceClose c) q -> exists o, nth_error cs c = Some o /\ ccb o = CbDetached;
   c_fcd : forall c, In (FConnDestroyed c) q -> exists o, nth_error cs c = Some o /\ cst o = CDisconnected;
   c_fsh : forall c, In (FShutdown c) q -> exists o, nth_error cs c = Some o /\ calive o = true /\ (c_live (cst o) = true \/ In (FConnDestroyed c) q);
-  c_order : order_ok q
+  c_order : order_ok q;
+  (* while resetChannel is queued, the connection it was queued with is still fresh (not yet in the poller's active set) *)
+  c_fresh : forall c o, cn = Some c -> nth_error cs c = Some o -> cfresh o = false -> count_rc q = 0%nat
 }.
 Definition Cinv (s : st) : Prop := dsnap s = None /\ Cc None (alive s) (connection s) (conns s) (pending s).
 (* after gc: every living connection object is referenced *)
@@ -278,9 +283,12 @@ Proof.
 Qed.
 
 (* the connector's functions: components unchanged, only functors of the Connector appended *)
-Lemma Cc_app_k ex al cn cs q q' : (forall f, In f q' -> k_neutral f) -> Cc ex al cn cs q -> Cc ex al cn cs (q ++ q').
+Lemma count_rc_app q q' : count_rc (q ++ q') = (count_rc q + count_rc q')%nat.
+Proof. unfold count_rc. rewrite filter_app, app_length. reflexivity. Qed.
+Lemma Cc_app_k ex al cn cs q q' : (forall f, In f q' -> k_neutral f) -> (cn = None \/ count_rc q' = 0%nat) ->
+  Cc ex al cn cs q -> Cc ex al cn cs (q ++ q').
 Proof.
-  intros Hk [A B C D E F G H I J K L].
+  intros Hk Hz [A B C D E F G H I J K L Mf].
   assert (R : forall c, refsC cn cs (q ++ q') c = refsC cn cs q c).
   { intros c. unfold refsC. rewrite filter_app, app_length, (filter_holds_k c q' Hk). cbn. lia. }
   assert (NI : forall f, In f (q ++ q') -> In f q \/ k_neutral f).
@@ -295,11 +303,12 @@ Proof.
   - intros c Hi. destruct (NI _ Hi) as [Hi'|Hf]; [|discriminate].
     destruct (K _ Hi') as (o & H1 & H2 & [H3|H3]); exists o; repeat split; auto. right. apply in_or_app. auto.
   - apply order_ok_app_k; auto.
+  - intros c o E0 H0 F0. rewrite count_rc_app. destruct Hz as [Hz|Hz]; [congruence|]. rewrite Hz, Nat.add_0_r. eauto.
 Qed.
 
-Lemma Cinv_sameC s s' q : sameC s s' q -> (forall f, In f q -> k_neutral f) -> Cinv s -> Cinv s'.
+Lemma Cinv_sameC s s' q : sameC s s' q -> (forall f, In f q -> k_neutral f) -> (connection s = None \/ count_rc q = 0%nat) -> Cinv s -> Cinv s'.
 Proof.
-  intros (E1 & E2 & E3 & E4 & E5 & _) Hk [D C]. unfold Cinv. rewrite E1, E2, E3, E4, E5. split; auto. apply Cc_app_k; auto.
+  intros (E1 & E2 & E3 & E4 & E5 & _) Hk Hz [D C]. unfold Cinv. rewrite E1, E2, E3, E4, E5. split; auto. apply Cc_app_k; auto.
 Qed.
 Lemma Crefs_sameC s s' q : sameC s s' q -> Crefs s -> Crefs s'.
 Proof.
@@ -337,16 +346,16 @@ Qed.
 Lemma holds_FCD c d : holds c (FConnDestroyed d) = (d =? c)%nat.
 Proof. reflexivity. Qed.
 
-Ltac cdestr H := destruct H as [Cna Cde Ccn Ccb Cst Cdr Crf Cdd Cff Cfd Cfs Cor].
+Ltac cdestr H := destruct H as [Cna Cde Ccn Ccb Cst Cdr Crf Cdd Cff Cfd Cfs Cor Cfr].
 
 (* ---- a field update of one connection object that changes nothing the invariant looks at *)
 Lemma Cc_upd ex al cn cs q c f o :
   nth_error cs c = Some o ->
   calive (f o) = calive o -> c_live (cst (f o)) = c_live (cst o) -> (cst (f o) = CDisconnected <-> cst o = CDisconnected) ->
-  cst (f o) <> CConnecting -> creg (f o) = creg o -> ccb (f o) = ccb o -> cuser (f o) = cuser o ->
+  cst (f o) <> CConnecting -> creg (f o) = creg o -> ccb (f o) = ccb o -> cuser (f o) = cuser o -> cfresh (f o) = cfresh o ->
   Cc ex al cn cs q -> Cc ex al cn (upd cs c f) q.
 Proof.
-  intros Ho F1 F2 F3 F4 F5 F6 F7 C. cdestr C.
+  intros Ho F1 F2 F3 F4 F5 F6 F7 F8 C. cdestr C.
   assert (N : forall c' o', nth_error (upd cs c f) c' = Some o' ->
            (c' = c /\ o' = f o) \/ (c' <> c /\ nth_error cs c' = Some o')).
   { intros c' o'. rewrite nth_error_upd. destruct (Nat.eq_dec c c') as [<-|]; [rewrite Ho; cbn; intros [= <-]; auto|auto]. }
@@ -374,14 +383,15 @@ Proof.
   - intros c' Hi. destruct (Cfs _ Hi) as (o' & H1 & H2 & H3). destruct (Nat.eq_dec c' c) as [->|Ne].
     + exists (f o). rewrite nth_error_upd_same, Ho. rewrite Ho in H1. injection H1 as <-. cbn. rewrite F1, F2. auto.
     + exists o'. rewrite nth_error_upd_other; auto.
+  - intros c' o' E H. destruct (N _ _ H) as [[-> ->]|[Ne H']]; [rewrite F8; apply (Cfr _ _ E Ho)|apply (Cfr _ _ E H')].
 Qed.
 
 (* TcpClient::newConnection: a fresh connection object becomes connection_ *)
-Lemma Cc_new cs q i fr :
+Lemma Cc_new cs q i :
   Cc None true None cs q ->
-  Cc None true (Some (length cs)) (cs ++ [mkC CConnected i true CbClient false true 0 fr]) q.
+  Cc None true (Some (length cs)) (cs ++ [mkC CConnected i true CbClient false true 0 true]) q.
 Proof.
-  intros C. cdestr C. set (o := mkC CConnected i true CbClient false true 0 fr).
+  intros C. cdestr C. set (o := mkC CConnected i true CbClient false true 0 true).
   assert (N : forall c' o', nth_error (cs ++ [o]) c' = Some o' ->
            (c' = length cs /\ o' = o) \/ (c' < length cs /\ nth_error cs c' = Some o')%nat).
   { intros c' o'. rewrite nth_error_snoc. destruct (Nat.eq_dec c' (length cs)) as [->|]; [intros [= <-]; auto|].
@@ -402,6 +412,7 @@ Proof.
   - intros c' Hi. destruct (Cff _ Hi) as (o' & H1 & H2). exists o'. rewrite nth_error_app1; auto. eapply nth_error_lt; eauto.
   - intros c' Hi. destruct (Cfd _ Hi) as (o' & H1 & H2). exists o'. rewrite nth_error_app1; auto. eapply nth_error_lt; eauto.
   - intros c' Hi. destruct (Cfs _ Hi) as (o' & H1 & H2). exists o'. rewrite nth_error_app1; auto. eapply nth_error_lt; eauto.
+  - intros c o' [= <-] H. rewrite nth_error_snoc in H. destruct (Nat.eq_dec (length cs) (length cs)); [|congruence]. injection H as <-. cbn. discriminate.
 Qed.
 
 Lemma Cc_ex_weaken ex al cn cs q : Cc None al cn cs q -> Cc ex al cn cs q.
@@ -459,6 +470,8 @@ Proof.
       split; [reflexivity|]. split; [destruct o; auto|]. right. apply in_or_app. right. left. reflexivity.
     + exists o'. rewrite nth_error_upd_other; auto. repeat split; auto. destruct H3; auto. right. apply in_or_app. auto.
   - apply order_ok_snoc; auto. intros; discriminate.
+  - intros c' o' E H F0. rewrite count_rc_snoc. cbn. rewrite Nat.add_0_r. subst cn'. destruct (ccb o); [discriminate|].
+    destruct (N _ _ H) as [[-> ->]|[Ne H']]; [apply (Cfr _ _ E Ho); destruct o; auto|apply (Cfr _ _ E H'); auto].
 Qed.
 
 (* queueing shutdownInLoop (raw this) for a connection that is up *)
@@ -480,6 +493,7 @@ Proof.
     + injection Hi as <-. exists o. auto.
   - apply order_ok_snoc; auto. intros c' [= <-] Hi. destruct (Cfd _ Hi) as (o' & H1 & H2).
     rewrite Ho in H1. injection H1 as <-. rewrite H2 in Hl. discriminate.
+  - intros c' o' E H F0. rewrite count_rc_snoc. cbn. rewrite Nat.add_0_r. eauto.
 Qed.
 
 (* ---- dequeuing *)
@@ -500,6 +514,7 @@ Proof.
   - intros c Hi. apply Cfd. right. auto.
   - intros c Hi. destruct (Cfs c (or_intror Hi)) as (o & H1 & H2 & H3). exists o. repeat split; auto. destruct H3; auto.
   - destruct Cor. auto.
+  - intros c o E H F0. pose proof (Cfr _ _ E H F0) as Z. rewrite count_rc_cons in Z. lia.
 Qed.
 
 (* TcpConnection::connectDestroyed of a connection that is already kDisconnected: the channel leaves the poller *)
@@ -541,6 +556,9 @@ Proof.
   - intros c' Hi. destruct (Nat.eq_dec c' c) as [->|Ne]; [contradiction|].
     destruct (Cfs c' (or_intror Hi)) as (o' & H1 & H2 & H3). exists o'. rewrite nth_error_upd_other; auto.
     repeat split; auto. destruct H3; auto.
+  - intros c' o' E H F0. destruct (N _ _ H) as [[-> ->]|[Ne H']].
+    + pose proof (Cfr _ _ E Ho) as Z. rewrite count_rc_cons in Z. cbn in Z. apply Z. destruct o; auto.
+    + pose proof (Cfr _ _ E H' F0) as Z. rewrite count_rc_cons in Z. cbn in Z. exact Z.
 Qed.
 
 (* dequeuing forceCloseInLoop: its strong reference is gone; the connection's count is owed until handleClose re-queues *)
@@ -620,6 +638,7 @@ Proof.
   - intros c' Hi. destruct (Cfs _ Hi) as (o' & H1 & H2 & H3). destruct (Nat.eq_dec c' c) as [->|Ne].
     + exists (c_set_cb CbDetached o). rewrite nth_error_upd_same, Ho. rewrite Ho in H1. injection H1 as <-. destruct o; auto.
     + exists o'. rewrite nth_error_upd_other; auto.
+  - discriminate.
 Qed.
 
 Lemma Cc_enq_ffc al cn cs q c o :
@@ -639,6 +658,7 @@ Proof.
   - intros c' Hi. apply in_app_or in Hi. destruct Hi as [Hi|[Hi|[]]]; [|discriminate].
     destruct (Cfs _ Hi) as (o' & H1 & H2 & H3). exists o'. repeat split; auto. destruct H3; auto. right. apply in_or_app. auto.
   - apply order_ok_snoc; auto. intros; discriminate.
+  - intros c' o' E H F0. rewrite count_rc_snoc. cbn. rewrite Nat.add_0_r. eauto.
 Qed.
 
 (* ---- user references *)
@@ -676,6 +696,7 @@ Proof.
   - intros c' Hi. destruct (Cfs _ Hi) as (o' & H1 & H2 & H3). destruct (Nat.eq_dec c' c) as [->|Ne].
     + exists (c_set_user n o). rewrite nth_error_upd_same, Ho. rewrite Ho in H1. injection H1 as <-. destruct o; auto.
     + exists o'. rewrite nth_error_upd_other; auto.
+  - intros c' o' E H F0. destruct (N _ _ H) as [[-> ->]|[Ne H']]; [apply (Cfr _ _ E Ho); destruct o; auto|apply (Cfr _ _ E H'); auto].
 Qed.
 
 (* ---- ~TcpConnection of an object nobody references *)
@@ -715,15 +736,17 @@ Proof.
     + rewrite Ho in H1. injection H1 as <-. destruct H3 as [H3|H3]; [congruence|].
       pose proof (NH _ H3) as Z. cbn in Z. rewrite Nat.eqb_refl in Z. discriminate.
     + exists o'. rewrite nth_error_upd_other; auto.
+  - intros c' o' E H F0. destruct (N _ _ H) as [[-> ->]|[Ne H']]; [apply (Cfr _ _ E Ho); destruct o; auto|apply (Cfr _ _ E H'); auto].
 Qed.
 
 (* ------------------------------------------------------------------ state-level lemmas *)
 Definition Post (s s' : st) : Prop :=
   Kinv s' /\ Kdc s' /\ Cinv s' /\ alive s' = alive s /\ xc s' = xc s /\ xs s' = xs s /\ xd s' = xd s.
 
-Lemma sameC_post s s' q : Kinv s' -> Kdc s' -> sameC s s' q -> (forall f, In f q -> k_neutral f) -> Cinv s -> Post s s'.
+Lemma sameC_post s s' q : Kinv s' -> Kdc s' -> sameC s s' q -> (forall f, In f q -> k_neutral f) ->
+  (connection s = None \/ count_rc q = 0%nat) -> Cinv s -> Post s s'.
 Proof.
-  intros K Kd SC Hq C. pose proof (Cinv_sameC _ _ _ SC Hq C). unfold Post. unfold sameC in SC. intuition.
+  intros K Kd SC Hq Hz C. pose proof (Cinv_sameC _ _ _ SC Hq Hz C). unfold Post. unfold sameC in SC. intuition.
 Qed.
 Lemma reset_neutral : forall f, In f [FResetChannel] -> k_neutral f.
 Proof. intros f [<-|[]]. reflexivity. Qed.
@@ -770,7 +793,7 @@ Lemma handleError_I s i :
   Kinv s -> Ksettled s -> Cinv s -> k_chan s = Some (i, true) -> k_dead s = false ->
   wpT (handleError s) (Post s).
 Proof.
-  intros K St C Hc Hd. destruct (connecting_facts _ _ K Hc) as (Hs & _).
+  intros K St C Hc Hd. destruct (connecting_facts _ _ K Hc) as (Hs & _ & Hcn & _).
   unfold handleError, removeAndResetChannel. rewrite Hs, Hc. cbn [kstate_eqb].
   eapply wpT_mono; [|apply (retry_after_unreg s i false KDisconnected); auto].
   intros s' (K' & Kd' & SC). eapply sameC_post; eauto using reset_neutral.
@@ -816,7 +839,7 @@ Proof.
   assert (Hn : nstart r = 0%nat) by (destruct (xc s); lia).
   assert (C' : Cinv (set_pending s r)) by (eapply Cinv_pop_neutral; eauto; intros; discriminate).
   eapply wpT_mono; [|apply startInLoop_K; auto].
-  - intros s' (K2 & Kd2 & SC). pose proof (sameC_post _ _ _ K2 Kd2 SC nil_neutral C') as P. unfold Post in *. cbn in P. exact P.
+  - intros s' (K2 & Kd2 & SC). pose proof (sameC_post _ _ _ K2 Kd2 SC nil_neutral (or_intror eq_refl) C') as P. unfold Post in *. cbn in P. exact P.
   - intros Hk. cbn. repeat split; auto. destruct (alive s) eqn:A; auto.
     assert (T : timers s <> []). { intros T. specialize (St A T). congruence. }
     specialize (Kdk eq_refl Hd T). cbn in Hk. congruence.
@@ -834,7 +857,10 @@ Proof.
     pose proof K' as K0. kdestr K0. destruct (k_chan (set_pending s r)) as [[i [|]]|] eqn:Hc; try (destruct Kch; congruence).
     unfold removeAndResetChannel. change (k_chan (set_k_state (set_pending s r) KDisconnected)) with (k_chan (set_pending s r)). rewrite Hc.
     eapply wpT_mono; [|apply (retry_after_unreg (set_pending s r) i true KDisconnected); auto].
-    intros s' (K2 & Kd2 & SC). pose proof (sameC_post _ _ _ K2 Kd2 SC reset_neutral C') as P. unfold Post in *. cbn in P. exact P.
+    intros s' (K2 & Kd2 & SC).
+    assert (Hcn0 : connection (set_pending s r) = None).
+    { destruct (connection (set_pending s r)) eqn:E0; auto. assert (k_state (set_pending s r) = KConnected) by (apply Kcn; congruence). congruence. }
+    pose proof (sameC_post _ _ _ K2 Kd2 SC reset_neutral (or_introl Hcn0) C') as P. unfold Post in *. cbn in P. exact P.
   - apply wpT_ret. unfold Post. split; [exact K'|split; [|split; [exact C'|cbn; auto]]].
     apply Kdc_state. intros Hs. rewrite Hs in E. discriminate.
 Qed.
@@ -916,7 +942,7 @@ Proof.
       eapply wpT_mono; [|apply startInLoop_K; auto].
       * intros s' (K' & Kd' & SC).
         assert (C3 : Cinv s3) by exact C2.
-        pose proof (sameC_post _ _ _ K' Kd' SC nil_neutral C3) as P. unfold Post in *. cbn in P. intuition.
+        pose proof (sameC_post _ _ _ K' Kd' SC nil_neutral (or_intror eq_refl) C3) as P. unfold Post in *. cbn in P. intuition.
       * intros _. cbn. rewrite nstart_snoc. cbn. repeat split; auto. lia.
     + apply wpT_ret. unfold Post. split; [exact K2|split; [eapply Kdc_same; eauto|split; [exact C2|cbn; auto]]].
   - apply wpT_ret. set (s2 := enq s1 (FConnDestroyed c)).
@@ -1045,7 +1071,7 @@ Proof.
         rewrite quiet_spec in *. cbn. erewrite (nretry_hack s) by reflexivity. intuition.
       * intros _ _ E. destruct (timers s); discriminate.
     + unfold Kdc. cbn. intros _ _ _. apply in_or_app. right. left. reflexivity.
-    + apply (Cc_al_false _ (alive s)). apply Cc_app_k; auto. intros f [<-|[]]. reflexivity.
+    + apply (Cc_al_false _ (alive s)). apply Cc_app_k; auto; try (intros f [<-|[]]; reflexivity); try (right; reflexivity).
 Qed.
 
 (* ------------------------------------------------------------------ gc, settle, finish *)
@@ -1140,9 +1166,10 @@ Qed.
 
 Lemma Cc_map ex al cn cs q f :
   (forall o, cst (f o) = cst o /\ calive (f o) = calive o /\ creg (f o) = creg o /\ ccb (f o) = ccb o /\ cuser (f o) = cuser o) ->
+  (cn = None \/ count_rc q = 0%nat) ->
   Cc ex al cn cs q -> Cc ex al cn (map f cs) q.
 Proof.
-  intros Hf C. cdestr C.
+  intros Hf Hz C. cdestr C.
   assert (N : forall c o', nth_error (map f cs) c = Some o' -> exists o, nth_error cs c = Some o /\ o' = f o).
   { intros c o'. rewrite nth_error_map. destruct (nth_error cs c) as [o|]; cbn; [intros [= <-]; eauto|discriminate]. }
   assert (R : forall c, refsC cn (map f cs) q c = refsC cn cs q c).
@@ -1158,6 +1185,7 @@ Proof.
   - intros c Hi. destruct (Cff _ Hi) as (o & H1 & H2). exists (f o). rewrite nth_error_map, H1. cbn. destruct (Hf o) as (_&_&_& -> &_). auto.
   - intros c Hi. destruct (Cfd _ Hi) as (o & H1 & H2). exists (f o). rewrite nth_error_map, H1. cbn. destruct (Hf o) as (-> &_). auto.
   - intros c Hi. destruct (Cfs _ Hi) as (o & H1 & H2 & H3). exists (f o). rewrite nth_error_map, H1. cbn. destruct (Hf o) as (-> & -> &_). auto.
+  - intros c o' E H F0. destruct Hz as [Hz|Hz]; [congruence|exact Hz].
 Qed.
 
 Lemma run_functor_I s f r :
@@ -1190,12 +1218,13 @@ Qed.
 (* ---- find_down / find_user *)
 Lemma find_down_spec l : forall i acc c,
   find_down l i acc = Some c ->
-  acc = Some c \/ exists o, nth_error l (c - i) = Some o /\ (i <= c)%nat /\ calive o = true /\ creg o = true /\ c_live (cst o) = true.
+  acc = Some c \/ exists o, nth_error l (c - i) = Some o /\ (i <= c)%nat /\ calive o = true /\ creg o = true /\ c_live (cst o) = true /\ cfresh o = false.
 Proof.
   induction l as [|x r IH]; intros i acc c; cbn; auto.
   intros H. apply IH in H. destruct H as [H|(o & H1 & H2 & H3)].
   - destruct (calive x && creg x && c_live (cst x) && negb (cfresh x)) eqn:E; auto. injection H as <-. right.
-    exists x. rewrite Nat.sub_diag. cbn. apply andb_prop in E. destruct E as [E _]. apply andb_prop in E. destruct E as [E E3]. apply andb_prop in E. destruct E. auto.
+    exists x. rewrite Nat.sub_diag. cbn. apply andb_prop in E. destruct E as [E E4]. apply andb_prop in E. destruct E as [E E3]. apply andb_prop in E. destruct E.
+    repeat split; auto. destruct (cfresh x); auto; discriminate.
   - right. exists o. destruct (c - i)%nat as [|k] eqn:Ek; [lia|]. cbn. replace k with (c - S i)%nat by lia. repeat split; auto; try lia; tauto.
 Qed.
 Lemma find_user_none l : forall i, find_user l i = None -> forall c o, nth_error l c = Some o -> cuser o = 0%nat.
@@ -1301,7 +1330,7 @@ Proof.
   eapply (wpT_mono _ (fun s' => Kinv s' /\ Kdc s' /\ sameC s1 s' [])).
   - intros s' (K' & Kd' & SC).
     assert (C1 : Cinv s1) by exact C.
-    pose proof (sameC_post _ _ _ K' Kd' SC nil_neutral C1) as P.
+    pose proof (sameC_post _ _ _ K' Kd' SC nil_neutral (or_intror eq_refl) C1) as P.
     eapply (post_inv0 s); auto; unfold Post in *; cbn in P; exact P.
   - apply fire_all_I; auto.
     + rewrite filter_len_sort. fold exp. lia.
@@ -1318,6 +1347,127 @@ Proof.
         - split; auto. destruct (nstart (pending s)) eqn:Ns; auto.
           destruct (Kxc (or_intror (Nat.neq_succ_0 _))) as [Q _]. apply quiet_spec in Q. tauto. }
       repeat split; try tauto. lia.
+Qed.
+
+(* ------------------------------------------------------------------ what one functor does to the queue and to connection_:
+   needed to show that a whole batch (RunPending) runs every resetChannel that was queued while a connection is up *)
+Lemma startInLoop_eff s s' ev : startInLoop s = Some (s', ev) -> pending s' = pending s /\ connection s' = connection s.
+Proof.
+  unfold startInLoop. destruct (negb _); [discriminate|]. destruct (k_connect s); [|intros [= <- _]; auto].
+  unfold connect_. cbn [kq set_socks].
+  assert (X : forall e s0, pending s0 = pending s -> connection s0 = connection s ->
+     bind (Some (s0, [EvAttempt (length (socks s)) e]))
+       (fun s1 => match classify e with
+                  | ActConnecting => connecting s1 (length (socks s)) | ActRetry => retry s1 (length (socks s))
+                  | ActClose => do_close s1 (length (socks s)) | ActLeak => ret s1 end) = Some (s', ev) ->
+     pending s' = pending s /\ connection s' = connection s).
+  { intros e s0 E1 E2 H. apply bind_some_inv' in H. destruct H as (rest & H & _). destruct (classify e).
+    - unfold connecting in H. cbn in H. destruct (k_chan s0); [discriminate|]. injection H as <- _. cbn. auto.
+    - unfold retry, do_close in H. cbn in H. destruct (k_connect s0); injection H as <- _; cbn; auto.
+    - unfold do_close in H. injection H as <- _. cbn. auto.
+    - injection H as <- _. auto. }
+  destruct (kq s) as [|e r]; apply X; reflexivity.
+Qed.
+
+Lemma retry_unreg_eff s i (b : bool) st0 s' ev :
+  retry (enq (set_k_chan (if b then set_k_state s st0 else s) (Some (i, false))) FResetChannel) i = Some (s', ev) ->
+  pending s' = pending s ++ [FResetChannel] /\ connection s' = connection s.
+Proof. unfold retry, do_close. destruct b; cbn; destruct (k_connect s); intros [= <- _]; cbn; auto. Qed.
+
+Lemma stopInLoop_eff s s' ev : stopInLoop s = Some (s', ev) ->
+  connection s' = connection s /\ (pending s' = pending s \/ (k_state s = KConnecting /\ pending s' = pending s ++ [FResetChannel])).
+Proof.
+  unfold stopInLoop. destruct (kstate_eqb (k_state s) KConnecting) eqn:E; [|intros [= <- _]; auto].
+  assert (Hs : k_state s = KConnecting) by (destruct (k_state s); cbn in E; congruence).
+  unfold removeAndResetChannel. change (k_chan (set_k_state s KDisconnected)) with (k_chan s).
+  destruct (k_chan s) as [[i [|]]|]; try discriminate. intros H. apply (retry_unreg_eff s i true KDisconnected) in H. destruct H. auto.
+Qed.
+
+Lemma restart_eff s s' ev : restart s = Some (s', ev) -> pending s' = pending s /\ connection s' = connection s.
+Proof. unfold restart. intros H. apply bind_some_inv' in H. destruct H as (rest & H & _). apply startInLoop_eff in H. cbn in H. exact H. Qed.
+
+Lemma handleClose_eff s c s' ev : handleClose s c = Some (s', ev) ->
+  exists app, pending s' = pending s ++ app /\ count_rc app = 0%nat /\ (connection s' = connection s \/ connection s' = None).
+Proof.
+  unfold handleClose. destruct (nth_error (conns s) c) as [o|]; [|discriminate]. intros H. apply bind_some_inv' in H. destruct H as (rest & H & _).
+  destruct (ccb o).
+  - unfold removeConnection in H. destruct (negb _); [discriminate|]. cbn [connection setc set_conns] in H.
+    destruct (connection s) as [c'|]; [|discriminate]. destruct (negb _); [discriminate|].
+    destruct (_ && _).
+    + apply restart_eff in H. cbn in H. destruct H as [H1 H2]. exists [FConnDestroyed c]. auto.
+    + injection H as <- _. cbn. exists [FConnDestroyed c]. auto.
+  - injection H as <- _. cbn. exists [FConnDestroyed c]. auto.
+Qed.
+
+Lemma gc_from_eff n : forall c s s' ev, gc_from n c s = Some (s', ev) -> pending s' = pending s /\ connection s' = connection s.
+Proof.
+  induction n as [|n IH]; intros c s s' ev; cbn [gc_from]; [intros [= <- _]; auto|].
+  destruct (nth_error (conns s) c) as [o|]; [|intros [= <- _]; auto]. destruct (_ && _); [|apply IH].
+  destruct (cst o); try discriminate. destruct (creg o); [discriminate|]. intros H. apply bind_some_inv' in H. destruct H as (rest & H & _).
+  apply IH in H. cbn in H. exact H.
+Qed.
+Lemma finish_eff m s' ev' : finish m = Some (s', ev') -> exists s0 ev0, m = Some (s0, ev0) /\ pending s' = pending s0 /\ connection s' = connection s0.
+Proof.
+  unfold finish, bind. destruct m as [[s0 ev0]|]; [|discriminate]. unfold gc. destruct (gc_from _ _ s0) as [[s1 e1]|] eqn:G; [|discriminate].
+  apply gc_from_eff in G. destruct G as [G1 G2]. unfold settle. destruct (_ && _ && _ && _).
+  - destruct (k_chan s1); [discriminate|]. cbn. intros [= <- _]. exists s0, ev0. cbn. auto.
+  - cbn. intros [= <- _]. exists s0, ev0. auto.
+Qed.
+
+(* one functor: the rest of the queue plus what it appended; if connection_ is set afterwards it was set before and no
+   resetChannel was appended *)
+Definition eff1 (s s' : st) : Prop :=
+  (pending s = [] /\ s' = s) \/
+  exists f r app, pending s = f :: r /\ pending s' = r ++ app /\ (connection s' <> None -> connection s <> None /\ count_rc app = 0%nat).
+
+Lemma run_one_eff s s' ev : Kinv s -> run_one s = Some (s', ev) -> eff1 s s'.
+Proof.
+  intros K. unfold run_one. destruct (pending s) as [|f r] eqn:Hp; [intros [= <- _]; left; auto|].
+  intros H. apply finish_eff in H. destruct H as (s0 & ev0 & H & P & Cn). right. exists f, r.
+  assert (X : exists app, pending s0 = r ++ app /\ (connection s0 <> None -> connection s <> None /\ count_rc app = 0%nat)).
+  { destruct f; cbn [run_functor] in H.
+    - destruct (k_dead _); [discriminate|]. apply bind_some_inv' in H. destruct H as (rest & H & _). apply startInLoop_eff in H. cbn in H.
+      destruct H as [H1 H2]. exists []. rewrite app_nil_r, H2. auto.
+    - destruct (k_dead _); [discriminate|]. apply stopInLoop_eff in H. cbn in H. destruct H as [H2 [H1|[Hs H1]]].
+      + exists []. rewrite app_nil_r, H2. auto.
+      + exists [FResetChannel]. rewrite H2. split; auto. intros N. exfalso.
+        destruct K as [_ Kcn _ _ _ _ _ _ _ _]. specialize (Kcn N). congruence.
+    - destruct (k_dead _); [discriminate|]. injection H as <- _. cbn. exists []. rewrite app_nil_r. auto.
+    - destruct (nth_error _ c) as [o|]; [|discriminate]. destruct (c_live _); injection H as <- _; cbn; exists []; rewrite app_nil_r; auto.
+    - destruct (nth_error _ c) as [o|]; [|discriminate]. destruct (c_live _).
+      + apply handleClose_eff in H. cbn in H. destruct H as (app & H1 & H2 & [H3|H3]); exists app; rewrite H3; split; auto; congruence.
+      + injection H as <- _. cbn. exists []. rewrite app_nil_r. auto.
+    - injection H as <- _. cbn. exists []. rewrite app_nil_r. auto.
+    - destruct (nth_error _ c) as [o|]; [|discriminate]. destruct (calive o); [|discriminate]. injection H as <- _. cbn. exists []. rewrite app_nil_r. auto.
+    - injection H as <- _. cbn. exists []. rewrite app_nil_r. auto. }
+  destruct X as (app & X1 & X2). exists app. rewrite P, Cn. auto.
+Qed.
+
+Lemma count_rc_skipn_le b : forall k, (count_rc (skipn k b) <= count_rc b)%nat.
+Proof.
+  induction b as [|y r IH]; intros [|k]; cbn [skipn]; auto. rewrite (count_rc_cons r y). specialize (IH k). lia.
+Qed.
+Lemma count_rc_skipn_app a b : forall k, (count_rc (skipn k (a ++ b)) <= count_rc (skipn k a) + count_rc b)%nat.
+Proof.
+  induction a as [|x r IH]; intros k.
+  - rewrite skipn_nil. cbn [app]. pose proof (count_rc_skipn_le b k). unfold count_rc at 2. cbn. lia.
+  - destruct k as [|k]; cbn [skipn app].
+    + change (x :: r ++ b) with ((x :: r) ++ b). rewrite count_rc_app. lia.
+    + apply IH.
+Qed.
+
+(* a batch of n functors: every resetChannel queued within the first n positions has run; none was appended while a
+   connection is up *)
+Lemma run_n_batch n : forall s, Inv s -> (connection s <> None -> count_rc (skipn n (pending s)) = 0%nat) ->
+  wpT (run_n n s) (fun s' => Inv s' /\ (connection s' <> None -> count_rc (pending s') = 0%nat)).
+Proof.
+  induction n as [|n IH]; intros s I B; cbn [run_n]; [apply wpT_ret; auto|].
+  pose proof (run_one_I s I) as W. destruct I as (K & I').
+  apply wpT_bind. destruct (run_one s) as [[s1 e1]|] eqn:E; [|exact W]. cbn in W |- *.
+  apply IH; auto. intros N. destruct (run_one_eff _ _ _ K E) as [[P ->]|(f & r & app & P & P1 & P2)].
+  - rewrite P in *. destruct n; reflexivity.
+  - destruct (P2 N) as [N0 Z]. specialize (B N0). rewrite P in B. cbn in B. rewrite P1.
+    pose proof (count_rc_skipn_app r app n). lia.
 Qed.
 
 (* ------------------------------------------------------------------ one op *)
@@ -1350,7 +1500,7 @@ Proof.
     assert (K1 : Kinv s1). { pose proof K as K0. kdestr K0. split; cbn; auto. intros A. congruence. }
     eapply wpT_mono; [|apply startInLoop_K; auto].
     + intros s' (K' & Kd' & SC). apply P0. assert (C1 : Cinv s1) by exact C.
-      pose proof (sameC_post _ _ _ K' Kd' SC nil_neutral C1) as P. unfold Post in *. cbn in P. exact P.
+      pose proof (sameC_post _ _ _ K' Kd' SC nil_neutral (or_intror eq_refl) C1) as P. unfold Post in *. cbn in P. exact P.
     + intros _. cbn. repeat split; auto. destruct (xc s); auto; discriminate.
       apply existsb_nstart. destruct (existsb is_FStart (pending s)); auto; discriminate.
   - (* Disconnect *)
@@ -1367,7 +1517,7 @@ Proof.
     + pose proof K as K0. kdestr K0. split; cbn; rewrite ?count_rc_snoc, ?nstart_snoc, ?has_k_snoc; cbn; rewrite ?Nat.add_0_r; auto; try congruence;
         try (intros D; specialize (Hnd Al); congruence).
     + apply Kdc_alive. exact Al.
-    + destruct C as [D C]. split; [exact D|]. cbn. apply Cc_app_k; auto. intros f [<-|[]]. reflexivity.
+    + destruct C as [D C]. split; [exact D|]. cbn. apply Cc_app_k; auto; try (intros f [<-|[]]; reflexivity); try (right; reflexivity).
   - (* EnableRetry *)
     destruct (negb (user_api_ok s)) eqn:U; [exact I|]. apply wpT_ret. inv0 K Kd C X; [flagK K|exact Kd|exact C].
   - (* Destroy *)
@@ -1397,7 +1547,7 @@ Proof.
       split; cbn; rewrite ?count_rc_snoc, ?nstart_snoc, ?has_k_snoc; cbn; rewrite ?Nat.add_0_r; auto; try congruence; try lia;
         try (intros D; specialize (Hnd Al); congruence).
     + apply Kdc_alive. exact Al.
-    + destruct C as [D C]. split; [exact D|]. cbn. apply Cc_app_k; auto. intros f [<-|[]]. reflexivity.
+    + destruct C as [D C]. split; [exact D|]. cbn. apply Cc_app_k; auto; try (intros f [<-|[]]; reflexivity); try (right; reflexivity).
     + unfold Xinv. cbn. congruence.
   - (* XStopFlags *)
     destruct (negb (user_api_ok s) || xs s) eqn:U; [exact I|].
@@ -1414,7 +1564,7 @@ Proof.
     + pose proof K as K0. kdestr K0. split; cbn; rewrite ?count_rc_snoc, ?nstart_snoc, ?has_k_snoc; cbn; rewrite ?Nat.add_0_r; auto; try congruence;
         try (intros D; specialize (Hnd Al); congruence).
     + apply Kdc_alive. exact Al.
-    + destruct C as [D C]. split; [exact D|]. cbn. apply Cc_app_k; auto. intros f [<-|[]]. reflexivity.
+    + destruct C as [D C]. split; [exact D|]. cbn. apply Cc_app_k; auto; try (intros f [<-|[]]; reflexivity); try (right; reflexivity).
     + unfold Xinv. cbn. congruence.
   - (* XDisconnectFlag *)
     destruct (negb (user_api_ok s) || xd s) eqn:U; [exact I|].
@@ -1445,19 +1595,21 @@ Proof.
     destruct (min_due (timers s)) as [t0|] eqn:Hm; [|exact I]. destruct (has_dup _); [exact I|].
     apply TimerFire_I; auto.
   - (* RunPending *)
-    apply wpT_bind. eapply wpT_mono; [|apply run_n_I; exact HI].
-    intros s1 (K1 & Kd1 & St1 & C1 & Cr1 & X1). apply wpT_ret. inv0 K1 Kd1 C1 X1.
-    + eapply Kinv_same; [exact K1|]. unfold sameK. cbn. repeat split; auto.
-    + exact Kd1.
-    + destruct C1 as [D1 C1]. split; [exact D1|]. cbn. apply Cc_map; auto; intros x; destruct x; cbn; auto.
+    apply wpT_bind. eapply wpT_mono; [|apply run_n_batch; [exact HI|]].
+    + intros s1 ((K1 & Kd1 & St1 & C1 & Cr1 & X1) & B1). apply wpT_ret. inv0 K1 Kd1 C1 X1.
+      * eapply Kinv_same; [exact K1|]. unfold sameK. cbn. repeat split; auto.
+      * exact Kd1.
+      * destruct C1 as [D1 C1]. split; [exact D1|]. cbn. apply Cc_map; auto; try (intros x; destruct x; cbn; auto; fail).
+        destruct (connection s1) eqn:E1; auto. right. apply B1. congruence.
+    + intros _. rewrite skipn_all. reflexivity.
   - (* RunOne *)
     destruct (pending s) eqn:Hp; [exact I|].
     eapply wpT_mono; [|apply run_one_I; exact HI]. intros s1 (K1 & Kd1 & St1 & C1 & Cr1 & X1). unfold Inv0. auto.
   - (* Down *)
     destruct (find_down (conns s) 0 None) as [c|] eqn:Hf; [|exact I].
-    destruct (find_down_spec _ _ _ _ Hf) as [E|(o & Ho & _ & Ha & Hg & Hl)]; [discriminate|]. rewrite Nat.sub_0_r in Ho.
+    destruct (find_down_spec _ _ _ _ Hf) as [E|(o & Ho & _ & Ha & Hg & Hl & Hfr)]; [discriminate|]. rewrite Nat.sub_0_r in Ho.
     eapply wpT_mono; [exact P0|]. eapply handleClose_I; eauto.
-    intros _. cbn in Hc. unfold loop_order in Hc. apply existsb_count_rc. destruct (existsb is_FReset (pending s)); auto; discriminate.
+    intros Hb. destruct C as [_ C]. pose proof C as C0. cdestr C0. destruct (Ccb _ _ Ho Ha Hl Hb) as [_ Cn]. apply (Cfr _ _ Cn Ho Hfr).
   - (* UserHold *)
     destruct (negb (user_api_ok s)) eqn:U; [exact I|]. destruct (connection s) as [c|] eqn:Hcn; [|exact I].
     destruct (find_user (conns s) 0) eqn:Hu; [exact I|]. apply wpT_ret.
